@@ -92,9 +92,9 @@ example : chooseEngine .nanskip false true false false true = .numbagg ∧ choos
 /-! ### the whole validation chain -/
 
 theorem validate_err (c : Cell) (e : ErrKind) (h : validate c = .err e) :
-    entryGuards c.fk c.engine c.dtypeGiven c.qGiven c.byDask c.arrDask = .err e ∨ core c.toCoreCell = .err e := by
+    entryGuards c.fk c.engine c.dtypeGiven c.dtypeInt c.qGiven c.byDask c.arrDask = .err e ∨ core c.toCoreCell = .err e := by
   unfold validate at h
-  cases hg : entryGuards c.fk c.engine c.dtypeGiven c.qGiven c.byDask c.arrDask with
+  cases hg : entryGuards c.fk c.engine c.dtypeGiven c.dtypeInt c.qGiven c.byDask c.arrDask with
   | err e' =>
     rw [hg] at h
     simp only [Res.bind, Res.err.injEq] at h
@@ -111,10 +111,10 @@ theorem validate_err (c : Cell) (e : ErrKind) (h : validate c = .err e) :
       simp [Res.bind] at h
 
 theorem validate_ok (c : Cell) (p : Plan) (h : validate c = .ok p) :
-    entryGuards c.fk c.engine c.dtypeGiven c.qGiven c.byDask c.arrDask = .ok () ∧
+    entryGuards c.fk c.engine c.dtypeGiven c.dtypeInt c.qGiven c.byDask c.arrDask = .ok () ∧
     core c.toCoreCell = .ok (p.method, p.blockwise) ∧ p.engine = engineOf c := by
   unfold validate at h
-  cases hg : entryGuards c.fk c.engine c.dtypeGiven c.qGiven c.byDask c.arrDask with
+  cases hg : entryGuards c.fk c.engine c.dtypeGiven c.dtypeInt c.qGiven c.byDask c.arrDask with
   | err e' => rw [hg] at h; simp [Res.bind] at h
   | ok u =>
     rw [hg] at h
@@ -135,16 +135,13 @@ def toOutcome : Res Plan → Spec19.Outcome
   | .err .assertion => .raised ["AssertionError", "Exception"]
   | .err .other => .raised ["Exception"]
 
-/-- **Clean refusal (partial).**  On aligned input, and unless more axes are requested than the labels have, the
-    validation chain either accepts the request or refuses it with ValueError / NotImplementedError / ImportError —
-    never through a failing assertion.
-
-    Full statement (false, see `validate_no_internal_counterexample`):
-      ∀ c : Cell, c.aligned = true → (toOutcome (validate c)).clean = true -/
-theorem validate_no_internal_partial (c : Cell) (hal : c.aligned = true) (hax : c.ax ≠ .tooMany) :
+/-- **Clean refusal.**  On aligned input (the documented contract) the validation chain either accepts the request or
+    refuses it with ValueError / NotImplementedError / ImportError — no assertion is left that can fail, for any
+    reduction, engine, method, reindex, label kind, axis relation, expected_groups and planner preference. -/
+theorem validate_no_internal (c : Cell) (hal : c.aligned = true) :
     (toOutcome (validate c)).clean = true := by
-  have hc := core_no_internal c.toCoreCell hal hax
-  have hg := entryGuards_clean c.fk c.engine c.dtypeGiven c.qGiven c.byDask c.arrDask
+  have hc := core_no_internal c.toCoreCell hal
+  have hg := entryGuards_clean c.fk c.engine c.dtypeGiven c.dtypeInt c.qGiven c.byDask c.arrDask
   cases hv : validate c with
   | ok p => rfl
   | err e =>
@@ -155,20 +152,27 @@ theorem validate_no_internal_partial (c : Cell) (hal : c.aligned = true) (hax : 
 def cellTooMany : Cell :=
   { kind := .plain, method := none, reindex := none, byDask := false, arrDask := false, ax := axisRel 2 1,
     expected := false, isFloat := true, preferred := .mapReduce, cohortsEmpty := true, singleBlock := true,
-    aligned := true, fk := .plain, qGiven := true, engine := none, dtypeGiven := false, countMask := false, sorted := true, hasNumbagg := true }
+    aligned := true, fk := .plain, qGiven := true, engine := none, dtypeGiven := false, dtypeInt := false, countMask := false, sorted := true, hasNumbagg := true }
 
-/-- `groupby_reduce(array_2d, by_1d, func="sum", axis=(0, 1))`: the request dies in `assert nax <= by_.ndim` -/
-theorem validate_no_internal_counterexample :
-    cellTooMany.aligned = true ∧ validate cellTooMany = .err .assertion ∧ (toOutcome (validate cellTooMany)).clean = false := by
-  decide +kernel
+/-- the former counterexamples are now clean refusals:
+    `groupby_reduce(array_2d, by_1d, func="sum", axis=(0, 1))` (was `assert nax <= by_.ndim`, C19-F6) -> ValueError;
+    an arg-reduction over both axes of 2-D labels on a chunked array (was `assert len(axis) == 1`, C19-F1)
+    -> NotImplementedError; an arg-reduction with a floating `dtype=` (was a TypeError in numpy_groupies, C19-F7)
+    -> ValueError -/
+example : validate cellTooMany = .err .valueError ∧
+    validate { cellTooMany with kind := .arg, fk := .arg, arrDask := true, ax := axisRel 2 2 } = .err .notImplemented ∧
+    validate { cellTooMany with kind := .arg, fk := .arg, ax := axisRel 1 1, dtypeGiven := true, dtypeInt := false }
+      = .err .valueError ∧
+    validate { cellTooMany with kind := .arg, fk := .arg, ax := axisRel 1 1, dtypeGiven := true, dtypeInt := true }
+      = .ok { method := none, blockwise := some true, engine := .numpy } := by decide +kernel
 
 def cellExample : Cell :=
   { kind := .arg, method := some .cohorts, reindex := none, byDask := false, arrDask := true, ax := axisRel 1 1,
     expected := true, isFloat := true, preferred := .cohorts, cohortsEmpty := false, singleBlock := false,
-    aligned := true, fk := .arg, qGiven := true, engine := none, dtypeGiven := false, countMask := true, sorted := false, hasNumbagg := true }
+    aligned := true, fk := .arg, qGiven := true, engine := none, dtypeGiven := false, dtypeInt := false, countMask := true, sorted := false, hasNumbagg := true }
 
 /-- non-vacuity: an accepted and a refused request satisfying the hypotheses -/
-example : cellExample.aligned = true ∧ cellExample.ax ≠ .tooMany ∧
+example : cellExample.aligned = true ∧
     validate cellExample = .ok { method := some .cohorts, blockwise := some false, engine := .numpy } ∧
     validate { cellExample with reindex := some true } = .err .notImplemented := by decide +kernel
 
@@ -198,10 +202,10 @@ theorem validate_engine_able (c : Cell) (p : Plan) (hfk : c.fk.isArg = true) (h 
     simp [heng, hfk] at hg
 
 theorem validate_isOk (c : Cell) :
-    (validate c).isOk = ((entryGuards c.fk c.engine c.dtypeGiven c.qGiven c.byDask c.arrDask).isOk &&
+    (validate c).isOk = ((entryGuards c.fk c.engine c.dtypeGiven c.dtypeInt c.qGiven c.byDask c.arrDask).isOk &&
       (core c.toCoreCell).isOk) := by
   unfold validate
-  generalize entryGuards c.fk c.engine c.dtypeGiven c.qGiven c.byDask c.arrDask = g
+  generalize entryGuards c.fk c.engine c.dtypeGiven c.dtypeInt c.qGiven c.byDask c.arrDask = g
   generalize core c.toCoreCell = r
   cases g with
   | err e => rfl
